@@ -533,6 +533,7 @@ def run_world(scn, root=None, writer=None, extra_setup=None):
         if sec and not real and t.escaped is None:
             # a second compile() on the same long-lived compiler, after the sources changed
             first = copy.copy(t)
+            first.scn = dict(t.scn, sources=copy.deepcopy(t.scn.get('sources', [])))    # what the sources held during the first call
             srcs = list(comp._sources)
             for i, names in sorted(sec.get('lose', {}).items()):
                 if int(i) < len(srcs):
@@ -643,11 +644,15 @@ def gen_world(rng, tier, focus='C07'):
     names = list(specs)
     scn = {'modules': specs, 'codegen': 'pysnmp' if rng.random() < 0.04 else 'json', 'files': {}}
     # several modules in one file
-    if n >= 2 and rng.random() < 0.15:
-        a, b = rng.sample(names, 2)
-        scn['files'][a] = [a, b]
-        if rng.random() < 0.5:
-            scn['co_only'] = [b]      # b has no file of its own
+    if n >= 2 and rng.random() < 0.18:
+        k_ = 3 if n >= 3 and rng.random() < 0.4 else 2
+        grp = rng.sample(names, k_)
+        a = grp[0]
+        rng.shuffle(grp)                     # the module the file is named after need not come first
+        scn['files'][a] = grp
+        co = [x for x in grp if x != a and rng.random() < 0.5]
+        if co:
+            scn['co_only'] = co              # these have no file of their own
     # requested names
     k = rng.choice([1, 1, 1, 2, 3])
     req = [rng.choice(names) for _ in range(k)]
@@ -792,6 +797,8 @@ def gen_world(rng, tier, focus='C07'):
             s_['strict'] = rng.random() < 0.5
             if rng.random() < 0.3:
                 s_['zip'] = rng.choice([True, 'sub'])
+        if rng.random() < 0.15:
+            scn['debug'] = True
         if rng.random() < 0.6:
             scn['rate'] = {'p': rng.choice([0.01, 0.03, 0.1]), 'seed': rng.randrange(1 << 30), 'actions': ['errno', 'short'],
                            'sites': sorted(rng.sample(['os.stat', 'os.listdir', 'open', 'file.read', 'mkstemp', 'os.write', 'os.close', 'os.rename'], rng.randrange(2, 8)))}
